@@ -3,7 +3,7 @@
    ISA specification Isa/X86.v, for ALL values.  The per-encoding breadth part is the in-kernel differential
    check of Isa/C01Check.v (processor + specification as oracles). *)
 From Coq Require Import ZArith List Bool NArith.
-From Falcon Require Import Base.Res IL.Const IL.ConstSpec IL.Expr IL.Func Exec.Sem Isa.X86 Isa.X86Lift Isa.X86Proofs Isa.X86Sim Isa.C01Check Isa.X86Tie Isa.X86SimMem Isa.X86SimStack.
+From Falcon Require Import Base.Res IL.Const IL.ConstSpec IL.Expr IL.Func Exec.Sem Isa.X86 Isa.X86Lift Isa.X86Proofs Isa.X86Sim Isa.C01Check Isa.X86Tie Isa.X86SimMem Isa.X86SimStack Isa.X86SimCarry.
 Import ListNotations.
 Local Open Scope Z_scope.
 
@@ -417,3 +417,29 @@ Theorem pop_mem_sim : forall m addr len sz dst,
            m addr len (IPop sz dst).
 Proof. exact X86SimStack.pop_mem_sim. Qed.
 Print Assumptions pop_mem_sim.
+
+(* 15. adc / sbb in all operand positions (they read CF: X86.step is unspecified when CF is undefined) *)
+Theorem adc_sim : forall m addr len sz dst src,
+  reg_operand_ok m sz dst -> src_operand_ok m sz src -> width_ok sz -> sim m addr len (IAlu AAdc sz dst src).
+Proof. exact X86SimCarry.adc_sim. Qed.
+Print Assumptions adc_sim.
+Theorem adc_load_sim : forall m addr len sz dst src,
+  reg_operand_ok m sz dst -> mem_operand_ok m src -> width_ok sz -> sim_when (no_wrap sz src) m addr len (IAlu AAdc sz dst src).
+Proof. exact X86SimCarry.adc_load_sim. Qed.
+Print Assumptions adc_load_sim.
+Theorem adc_rmw_sim : forall m addr len sz dst src,
+  mem_operand_ok m dst -> src_operand_ok m sz src -> width_ok sz -> sim_when (no_wrap sz dst) m addr len (IAlu AAdc sz dst src).
+Proof. exact X86SimCarry.adc_rmw_sim. Qed.
+Print Assumptions adc_rmw_sim.
+Theorem sbb_sim : forall m addr len sz dst src,
+  reg_operand_ok m sz dst -> src_operand_ok m sz src -> width_ok sz -> sim m addr len (IAlu ASbb sz dst src).
+Proof. exact X86SimCarry.sbb_sim. Qed.
+Print Assumptions sbb_sim.
+Theorem sbb_load_sim : forall m addr len sz dst src,
+  reg_operand_ok m sz dst -> mem_operand_ok m src -> width_ok sz -> sim_when (no_wrap sz src) m addr len (IAlu ASbb sz dst src).
+Proof. exact X86SimCarry.sbb_load_sim. Qed.
+Print Assumptions sbb_load_sim.
+Theorem sbb_rmw_sim : forall m addr len sz dst src,
+  mem_operand_ok m dst -> src_operand_ok m sz src -> width_ok sz -> sim_when (no_wrap sz dst) m addr len (IAlu ASbb sz dst src).
+Proof. exact X86SimCarry.sbb_rmw_sim. Qed.
+Print Assumptions sbb_rmw_sim.
